@@ -145,3 +145,47 @@ def run(job):
         job.case("construct/unit-of-other-type", "", False, "", "QuantityError")
     except QuantityError:
         job.case("construct/unit-of-other-type", "", True)
+
+    # parse-with-explicit-unit == parse-then-convert under the converters that
+    # are active *now* (registered, replaced, removed between the parses)
+    if not job.shard:
+        from quantity import UnitConversionError
+        from quantity.money import Money, MoneyConverter
+        EUR = Money.register_currency("EUR")
+        USD = Money.register_currency("USD")
+        convs = []
+        for rate in (Decimal("1.25"), Decimal("1.6"), Decimal("0.8")):
+            c = MoneyConverter(EUR)
+            c.update(None, [(USD, rate, 1)])
+            convs.append(c)
+        texts = ["100 USD", "12.34 USD", "1/3 USD", "100 EUR"]
+
+        def both(text, target):
+            out = []
+            for fn in (lambda: Money(text, target),
+                       lambda: Quantity(text, target),
+                       lambda: Money(text).convert(target)):
+                try:
+                    r = fn()
+                    out.append((r.unit.symbol, O.F(r.amount)))
+                except UnitConversionError:
+                    out.append("UnitConversionError")
+            return out
+        for order in ((0, 1, 2), (2, 0, 1), (1, 1, 0)):
+            for i in order:
+                with convs[i]:
+                    for text in texts:
+                        for target in (EUR, USD):
+                            r = both(text, target)
+                            job.case("parse/explicit-unit-under-current-converter",
+                                     (text, target.symbol, i), r[0] == r[2] and
+                                     r[1] == r[2], r, "parse then convert")
+                for text in texts:
+                    for target in (EUR, USD):
+                        r = both(text, target)
+                        same = text.endswith(target.symbol)
+                        job.case("parse/explicit-unit-without-converter",
+                                 (text, target.symbol, i),
+                                 r[0] == r[1] == r[2] and
+                                 (same or r[0] == "UnitConversionError"), r,
+                                 "UnitConversionError")
